@@ -21,8 +21,10 @@ COQ = VERIF / 'coq'
 THEORIES = COQ / 'theories'
 GENERATED = THEORIES / 'Generated'
 WORK = VERIF / '.work'
-EVIDENCE = VERIF / 'evidence'
-REPLAYS = VERIF / 'replays'
+# runs against a mutated copy (VERIF_REPO set to something else than /repo) must not overwrite the evidence of the real tree
+_ALT = str(REPO) != '/repo'
+EVIDENCE = (WORK / 'alt' / 'evidence') if _ALT else VERIF / 'evidence'
+REPLAYS = (WORK / 'alt' / 'replays') if _ALT else VERIF / 'replays'
 CORPUS = VERIF / 'corpus'
 KNOWN = VERIF / 'known_findings.json'
 COQ_FLAGS = ['-R', str(THEORIES), 'ScaredV']
@@ -262,7 +264,7 @@ def match_known(prop_id, tags):
 
 
 def write_replay(prop_id, payload):
-    REPLAYS.mkdir(exist_ok=True)
+    REPLAYS.mkdir(parents=True, exist_ok=True)
     blob = json.dumps(payload, sort_keys=True, default=str)
     h = hashlib.sha1(blob.encode()).hexdigest()[:12]
     path = REPLAYS / f'{prop_id}-{h}.json'
@@ -271,7 +273,7 @@ def write_replay(prop_id, payload):
 
 
 def write_evidence(prop_id, tier, seed, coverage, assumptions, wall_s, violations):
-    EVIDENCE.mkdir(exist_ok=True)
+    EVIDENCE.mkdir(parents=True, exist_ok=True)
     ev = {
         'property_id': prop_id, 'tier': tier, 'seed': int(seed), 'level': 'proof',
         'coverage': coverage, 'assumptions': assumptions, 'wall_s': round(wall_s, 2), 'violations': int(violations),
